@@ -709,6 +709,10 @@ func genTxn(rng *rand.Rand, ts TxnSchema, sh *shadow, nops int) TxnJ {
 		if op, ok := g.genWaitDup(); ok {
 			t.Ops = append(t.Ops, op)
 		}
+	case 24:
+		if op, ok := g.genWaitRow(); ok {
+			t.Ops = append(t.Ops, op)
+		}
 	case 23:
 		t.Ops = append(t.Ops, g.genTupleConfuse()...)
 	case 21, 22:
@@ -1399,6 +1403,58 @@ func (g *txnGen) genPendingClaim() (OperationJ, bool) {
 }
 
 // genWaitDup: a wait on one column, by a value that several rows may hold, expecting that value once or twice
+// genWaitRow: a wait on one stored row, compared on a few of its columns (of any kind) with the values it
+// holds, sets and maps written in another order; sometimes one of the values is changed
+func (g *txnGen) genWaitRow() (OperationJ, bool) {
+	var cands []TableSpec
+	for _, t := range g.ts.Spec.Tables {
+		if len(g.sh.rows[t.Name]) > 0 {
+			cands = append(cands, t)
+		}
+	}
+	if len(cands) == 0 {
+		return OperationJ{}, false
+	}
+	rng := g.rng
+	t := cands[rng.Intn(len(cands))]
+	us := g.sh.uuids(t.Name)
+	u := us[rng.Intn(len(us))]
+	src := g.sh.rows[t.Name][u]
+	row := Row{}
+	var cols []string
+	for _, c := range t.Cols {
+		v := src[c.Name]
+		if v == nil || rng.Intn(3) == 0 {
+			continue
+		}
+		o := cloneValue(nativeToOvsValue(v))
+		switch o.K {
+		case 'S':
+			for i, j := 0, len(o.S)-1; i < j; i, j = i+1, j-1 {
+				o.S[i], o.S[j] = o.S[j], o.S[i]
+			}
+		case 'M':
+			for i, j := 0, len(o.M)-1; i < j; i, j = i+1, j-1 {
+				o.M[i], o.M[j] = o.M[j], o.M[i]
+			}
+		}
+		row[c.Name] = o
+		cols = append(cols, c.Name)
+	}
+	if len(cols) == 0 {
+		return OperationJ{}, false
+	}
+	if rng.Intn(4) == 0 { // one value is not the stored one
+		c := t.Col(cols[rng.Intn(len(cols))])
+		row[c.Name] = nativeToOvsValue(g.genColValue(*c))
+	}
+	if rng.Intn(3) == 0 {
+		cols = nil // all columns: the expected row is compared on those it gives
+	}
+	zero := 0
+	return OperationJ{Op: "wait", Table: t.Name, Where: byUUID(u), Columns: cols, Until: []string{"==", "!="}[rng.Intn(2)], Rows: []Row{row}, Timeout: &zero}, true
+}
+
 func (g *txnGen) genWaitDup() (OperationJ, bool) {
 	var cands []TableSpec
 	for _, t := range g.ts.Spec.Tables {
